@@ -102,8 +102,9 @@ def in_quantifier(case):
     if body and (case["req"]["head"] or not has_body):
         return False, "body bytes for HEAD / bodiless status"
     declared = cls[0] if cls else None
-    # a seekable file wrapper with something to send is handed over and its length re-declared
-    seekable_file = (kind[0] == "file" and kind[1] and len(body) > 0 and (declared is None or declared > 0)
+    # a seekable file wrapper with something to send is handed over and its length re-declared,
+    # unless write() has already sent the head (then it is iterated like any other iterable)
+    seekable_file = (kind[0] == "file" and kind[1] and len(blocks[0]) > 0 and (declared is None or declared > 0)
                      and not any(a[0] == "W" for a in T.actions_of(case)))
     return True, {"status": status, "headers": headers, "body": body, "declared": declared,
                   "has_body": has_body, "seekable_file": seekable_file}
@@ -149,14 +150,7 @@ def judge(case, info, real, ans):
     if real["esc"] != "none":
         return ("exception escaped service()", "none", real["esc"], None)
     if real["hand"] == "1" and any(a[0] == "W" for a in T.actions_of(case)):
-        # the write() callable was used (even write(b""), which emits the head) and then a file
-        # wrapper returned: the file is appended raw
-        n_, left_, resps_ = parse_answer(ans)
-        ok_ = (n_ == 1 and not left_ and resps_[0]["body"] == (body[:declared] if declared is not None else body)
-               and (resps_[0]["fr"] != "E" or closing))
-        if not ok_:
-            return ("write() followed by a file wrapper: file bytes appended outside the announced framing",
-                    "a response the client can delimit", "n=%d left=%r" % (n_, left_[:40]), "kf_c03_write_then_file")
+        return ("file wrapper handed over after the head had already been sent by write()", "iterated", "handed over", None)
     if short:
         # cannot be delimited as announced: the connection must be closed
         if not closing:
@@ -167,11 +161,8 @@ def judge(case, info, real, ans):
     r = resps[0]
     conn_vals = [v.lower() for k, v in r["fields"] if k.lower() == b"connection"]
     if left:
-        kf = None
-        if head_only and left == b"0\r\n\r\n" and r["fr"] == "N":
-            kf = "kf_c03_head_chunked"
         return ("bytes left over after the response (a client reads them as the start of the next response)",
-                "nothing", repr(left[:60]), kf)
+                "nothing", repr(left[:60]), None)
     want_sl = ("HTTP/%s %s" % (version, info["status"])).encode("latin-1")
     if r["sl"] != want_sl:
         return ("status line", repr(want_sl), repr(r["sl"]), None)
@@ -189,7 +180,7 @@ def judge(case, info, real, ans):
     if r["fr"] == "E" and not closing:
         return ("close-delimited body but the connection is kept", "close", "keep", None)
     if b"close" in conn_vals and b"keep-alive" in conn_vals:
-        return ("both Connection: close and Connection: Keep-Alive", "one of them", repr(conn_vals), "kf_c03_error_keepalive")
+        return ("both Connection: close and Connection: Keep-Alive", "one of them", repr(conn_vals), None)
     # persistence is signalled truthfully
     if closing and b"close" not in conn_vals:
         return ("connection closed after a complete response that did not announce it", "Connection: close", repr(conn_vals), None)
@@ -215,7 +206,7 @@ def judge_error_task(case, real, ans):
     if b"close" not in conn_vals:
         return ("error response without Connection: close", "close", repr(conn_vals), None)
     if b"keep-alive" in conn_vals:
-        return ("both Connection: close and Connection: Keep-Alive", "one of them", repr(conn_vals), "kf_c03_error_keepalive")
+        return ("both Connection: close and Connection: Keep-Alive", "one of them", repr(conn_vals), None)
     return None
 
 
